@@ -1,7 +1,11 @@
 (* C03: only validated and nominated pairs are ever selected.
    Statements only; proofs in Proofs/AgentC03.v, AgentC03Sel.v, AgentC20.v.  PARTIAL: proved are (1) for
    EVERY history, the selected pair is listed, valid (Succeeded) and nominated -- an invariant of every
-   operation; (2) the role discipline (who may nominate / send checks) for every operation from every
+   operation; (1b) where a selection comes from: only an authentic, transaction-matched, symmetric success response
+   that answers a USE-CANDIDATE request or finds a deferred nomination on the pair, or an authentic request carrying
+   USE-CANDIDATE / a nomination value on that very pair, can move the selection, and a deferred nomination is only ever
+   put on a pair by such a request (C03_selection_provenance_step, C03_deferred_nomination_provenance_step);
+   (2) the role discipline (who may nominate / send checks) for every operation from every
    state; (3) the selection rules of the controlled selector.  The ghost-log refinement "valid BY a check
    of its own" is not a theorem: the model (and the code) accept a success response on a
    different local candidate than the one that sent the request (known finding C03, refuted in
@@ -9,7 +13,8 @@
    implementation's observations. *)
 From Coq Require Import ZArith Bool List.
 From Ice Require Import Model.AgentTypes Model.AgentCore Gen.Consts Gen.Lifecycle
-     Proofs.AgentFrame Proofs.AgentC03 Proofs.AgentC03Sel Proofs.AgentC20.
+     Proofs.AgentFrame Proofs.AgentC02 Proofs.AgentC03 Proofs.AgentC03Sel Proofs.AgentC20 Proofs.AgentC06 Proofs.AgentRem
+     Proofs.AgentEnds Proofs.AgentSelProv.
 Import ListNotations.
 Local Open Scope Z_scope.
 
@@ -77,3 +82,68 @@ Example C03_example_controlled_request_is_plain :
   let outs := snd (run cfg 1 1 [AddLocal l; AddRemote r; Start false 3 4; Tick]) in
   Forall (Forall nominates_only_controlling) outs /\ length (nth 3 outs []) = 1%nat.
 Proof. vm_compute. split; [repeat constructor; cbn; intros; try discriminate; intuition discriminate|reflexivity]. Qed.
+
+(* ---- where a selection comes from (every operation, every state) -------------------------------------------------
+   After any operation the selection is what it was, or empty, or Some id with:
+   - the operation delivered a STUN message to an open agent on a known local candidate l, and either
+   - [C_succ]: it is a success response, authentic under the remote password, whose transaction id is that of an
+     outstanding request q sent to exactly the response's source over l's transport ([response_symmetric]), the pair
+     (l, remote of that source) has identifier id, and q carried USE-CANDIDATE or the pair carries a deferred
+     nomination; or
+   - [C_req]: it is a Binding request, authentic (USERNAME and MESSAGE-INTEGRITY under the local password), carrying
+     USE-CANDIDATE or a nomination value, and id names the pair of l and a remote candidate with the request's source
+     address.
+   No API call, tick, data packet, timer or indication ever selects a pair. *)
+Theorem C03_selection_provenance_step : forall cfg s o,
+  let s' := fst (step cfg s o) in
+  s_selected s' = s_selected s \/ s_selected s' = None \/
+  exists id, s_selected s' = Some id /\
+    match o with
+    | InStun lh src m =>
+      s_closed s = false /\ exists l, find_local lh s = Some l /\
+        ((m_class m = 2 /\ response_authentic s m = true /\
+          exists q p0 r, In q (s_pending s) /\ q_tx q = m_tx m /\ response_symmetric q l src = true /\
+                         find_pair l r s = Some p0 /\ p_id p0 = id /\ (q_use q = true \/ p_nom_on_succ p0 = true)) \/
+         (m_class m = 0 /\ request_authentic s m = true /\ (m_use m = true \/ m_nom m <> None) /\
+          exists p r, p_id p = id /\ cand_equal (p_loc p) l = true /\ cand_equal (p_rem p) r = true /\
+                      addr_eqb (c_addr r) src = true))
+    | _ => False
+    end.
+Proof. exact step_selection. Qed.
+Print Assumptions C03_selection_provenance_step.
+
+(* A pair carries a deferred nomination (nominateOnBindingSuccess) after an operation only if it carried one
+   before, or the operation delivered an authentic Binding request with USE-CANDIDATE / a nomination value on that
+   very pair (from any state with unique pair ids; for AddRemoteCandidate also consistent remote bookkeeping). *)
+Theorem C03_deferred_nomination_provenance_step : forall cfg s o,
+  InvU s -> (match o with AddRemote _ => Rm s | _ => True end) ->
+  forall p', In p' (s_checklist (fst (step cfg s o))) -> p_nom_on_succ p' = true ->
+    (exists p, In p (s_checklist s) /\ p_id p = p_id p' /\ p_nom_on_succ p = true) \/
+    match o with
+    | InStun lh src m =>
+      s_closed s = false /\ exists l, find_local lh s = Some l /\
+        m_class m = 0 /\ request_authentic s m = true /\ (m_use m = true \/ m_nom m <> None) /\
+        exists p r, p_id p = p_id p' /\ cand_equal (p_loc p) l = true /\ cand_equal (p_rem p) r = true /\
+                    addr_eqb (c_addr r) src = true
+    | _ => False
+    end.
+Proof. exact step_deferred_flag. Qed.
+Print Assumptions C03_deferred_nomination_provenance_step.
+
+(* non-vacuity: a controlled agent; the USE-CANDIDATE request defers the nomination (second theorem, right
+   disjunct), the answer to the triggered check then selects the pair through the deferred nomination (first theorem) *)
+Example C03_example_provenance :
+  let cfg := mkConfig false 5 7 5000000000 false 25000000000 2000000000 0 0 0 0 [] false false 1 in
+  let l := mkCand 1 CandidateTypeHost NetworkTypeUDP4 (mkAddr false 167772161 5000) TCPTypeUnspecified 2130706431 1 None in
+  let src := mkAddr false 3232235777 6000 in
+  let r := mkCand 2 CandidateTypeHost NetworkTypeUDP4 src TCPTypeUnspecified 2130706431 1 None in
+  let req := mkMsg 0 1 77 (Some (1, 3)) (Some 2) true (Some (true, 9)) (Some 100) None None None in
+  let resp := mkMsg 2 1 1 None (Some 4) false None None None None (Some (mkAddr false 167772161 5000)) in
+  let s1 := fst (run cfg 1 2 [AddLocal l; AddRemote r; Start false 3 4]) in
+  let s2 := fst (step cfg s1 (InStun 1 src req)) in
+  let s3 := fst (step cfg s2 (InStun 1 src resp)) in
+  (map p_nom_on_succ (s_checklist s1), map p_nom_on_succ (s_checklist s2), s_selected s2, s_selected s3) =
+  ([false], [true], None, Some 1) /\
+  request_authentic s1 req = true /\ response_authentic s2 resp = true /\
+  map q_use (s_pending s2) = [false].
+Proof. vm_compute. repeat split. Qed.
